@@ -50,6 +50,9 @@ TNext == /\ l <= Len(T.ev) /\ l' = l + 1 /\ UNCHANGED tid
                 /\ UNCHANGED <<failAt, completeAt, match, consumed, delivered, errored, fed, phase, exc, pending, finishedI, closed>>)
             \/ (Ev.op = "exhaust" /\ TExhaust)
             \/ (Ev.op = "close" /\ W!Close)
+            \* (a recorded "feed_after_failure" -- eat_chunk called on an inspector that had already raised, be it with a
+            \* further piece of the same read -- has no action here: such a trace is rejected.  Several calls for ONE read
+            \* to an inspector that is alive are one Feed: the recorder merges them.)
             \* an inspector's finish() is only ever called as part of Exhaust / Close
             \/ (Ev.op = "finish" /\ Ev.i \in finishedI
                 /\ UNCHANGED <<failAt, completeAt, match, consumed, delivered, errored, fed, phase, exc, pending, finishedI, closed>>)
